@@ -441,6 +441,26 @@ func (n *CNode) Observe(inserted []string, roundsFrom int, full bool) map[string
 			}
 		}
 	}
+	// ... or through the round that received it (events received in a round whose
+	// frame carries no payload are in no block)
+	if len(n.undet) > 0 {
+		from := roundsFrom
+		if from < 0 {
+			from = 0
+		}
+		for r := from; r <= n.store.LastRound(); r++ {
+			ri, err := n.store.GetRound(r)
+			if err != nil {
+				continue
+			}
+			for _, h := range ri.ReceivedEvents {
+				if n.undet[h] {
+					rr = append(rr, map[string]interface{}{"e": n.w.idOf(h), "rr": r})
+					delete(n.undet, h)
+				}
+			}
+		}
+	}
 	selfsigs := []int{}
 	for _, s := range n.core.SelfBlockSignatures() {
 		selfsigs = append(selfsigs, s.Index)
